@@ -220,7 +220,7 @@ impl Check for C14 {
         "C14"
     }
     fn rule(&self) -> String {
-        "pattern strings of 0-14 chars from a pool in which markers (! ^ ' $), backslash and whitespace of every kind are frequent, mixed with ASCII letters/digits and non-ASCII letters (cased, normalizable, CJK, lower-case-but-folding), 1-3 texts per case (reparse history on one Pattern object; in a third of the cases the earlier steps use other CaseMatching/Normalization settings, and in a third the final text is first parsed with other settings); a literal text for the escape round-trip; all CaseMatching x Normalization. Oracles: own reference parser of the stated grammar vs Pattern::parse / Atom::parse / Pattern::new / Atom::new (needle text, kind, polarity, ignore-case and normalize flags); parse(escape(t)) is one positive fuzzy atom with needle project(t); reparse sequence == fresh parse. Non-trivial: a text containing a backslash or a marker adjacent to a non-ASCII character (or, for the round trip, a literal with a space/marker/backslash and a non-ASCII char). Distinct by case hash.".into()
+        "pattern strings of 0-14 chars from a pool in which markers (! ^ ' $), backslash and whitespace of every kind are frequent, mixed with ASCII letters/digits and non-ASCII letters (cased, normalizable, CJK, lower-case-but-folding), 1-3 texts per case (reparse history on one Pattern object; in a third of the cases the earlier steps use other CaseMatching/Normalization settings, and in a third the final text is first parsed with other settings); a literal text for the escape round-trip; all CaseMatching x Normalization. Oracles: own reference parser of the stated grammar vs Pattern::parse / Atom::parse / Pattern::new / Atom::new (needle text, kind, polarity, ignore-case and normalize flags); parse(escape(t)) is one positive fuzzy atom with needle project(t); reparse sequence == fresh parse; clone / clone_from onto a pattern parsed with other settings == source. Non-trivial: a text containing a backslash or a marker adjacent to a non-ASCII character (or, for the round trip, a literal with a space/marker/backslash and a non-ASCII char). Distinct by case hash.".into()
     }
     fn assumptions(&self) -> Vec<String> {
         vec![
@@ -337,6 +337,12 @@ impl Check for C14 {
                 p.reparse(&last, cm, nm);
             }
             let fresh = Pattern::parse(&last, cm, nm);
+            // clone_from onto a pattern parsed from the same text with other settings
+            let mut q = Pattern::parse(&last, case_of((case.case + 1) % 3), norm_of(1 - case.norm % 2));
+            q.clone_from(&fresh);
+            if q.atoms != fresh.atoms || fresh.clone().atoms != fresh.atoms {
+                fails.push(("clone-from".into(), format!("Pattern::clone_from / clone of the parse of {last:?} gives {:?}, the source is {:?}", q.atoms, fresh.atoms)));
+            }
             if p.atoms != fresh.atoms {
                 fails.push(("reparse".into(), format!("reparse history {:?} (text, case, norm) ends in {:?}, fresh parse gives {:?}", steps, p.atoms, fresh.atoms)));
             }
